@@ -124,7 +124,7 @@ def _has_nonempty_highlights(call: ast.Call) -> Optional[bool]:
 def rule_positioned(run, prog):
     run.rule("R-8.3", "PAIR/typestate: every Error object is positioned (>= 1 add_highlight on it, or a non-empty "
              "highlights=[...]) on every path before it is added to an Errors collection; an add under "
-             "`if error.highlights` counts as guarded", floor=18)
+             "`if error.highlights` counts as guarded", floor=12)
     n_sites = 0
     for fn in prog.fns:
         if fn.mod.rel == "errors.py":
@@ -186,10 +186,12 @@ def rule_positioned(run, prog):
                    f"Error object `{var}` can reach errors.add without any add_highlight on that path: a diagnostic "
                    f"without position (the human formatter indexes highlights[0])", bad[0] if bad else cnode,
                    adds=len(adds), highlights=len(hnodes))
-    run.require(n_sites >= 18, f"only {n_sites} Error creation sites found (floor 18)")
+    run.require(n_sites >= 12, f"only {n_sites} Error creation sites found (floor 12)")
     for mname in ("new_error", "new_warning"):
         m = prog.method("Context", mname)
-        ok = any(_is_error_ctor(n) and _has_nonempty_highlights(n) is True and "Highlight.from_token" in text(n)
+        ok = any(_has_nonempty_highlights(n) is True and "Highlight.from_token" in text(n)
+                 and (_is_error_ctor(n) or (isinstance(n.func, ast.Attribute) and n.func.attr in ("add", "append")
+                                            and text(n.func.value).endswith("errors")))
                  for n in walk_fn(m.node) if isinstance(n, ast.Call))
         run.ob("R-8.3", f"{m.key}::positioned", ok, f"Context.{mname} does not attach Highlight.from_token(tkn)", m.node)
 
